@@ -180,31 +180,15 @@ example :
 
 /-! ## 3. `hessian_weight_matrix` (HLLE): column bookkeeping -/
 
-/-- F-HLLE-CT, Lean witness: at `d = 3` the generated `ct` recurrence writes column 12 of a 10-column matrix. -/
-theorem hlle_cols_d3_out_of_range : hlleIndexErr 3 = some (.oob 12 10) := by decide
-
-/- FULL STATEMENT (false of the current source, `ct += ct + target_dimension - j`):
-     theorem hlle_cols_bijective : ∀ d, ColsOK d
-   i.e. for every target dimension the product columns written are exactly `[1+d, 1+d+d(d+1)/2)`, each once.
-   Refuted below (d = 3 writes `[4,5,6,7,8,12]`), proved for `d ≤ 2`, and proved for all `d` for the repaired
-   recurrence `ct += target_dimension - j` (`hlle_cols_bijective_of_update`, `hlle_cols_bijective_fixed`). -/
-theorem hlle_cols_bijective_refuted : ¬ ∀ d, ColsOK d := by
-  intro h
-  exact absurd (h 3) (by decide)
-
-example : hlleWrittenCols 3 = [4, 5, 6, 7, 8, 12] := by decide
-
-theorem hlle_cols_bijective_partial : ∀ d, d ≤ 2 → ColsOK d := by
-  intro d hd
-  have : d = 0 ∨ d = 1 ∨ d = 2 := by omega
-  rcases this with rfl | rfl | rfl <;> decide
-
-theorem hlle_index_ok_partial : ∀ d, d ≤ 2 → hlleIndexErr d = none := by
-  intro d hd
-  have : d = 0 ∨ d = 1 ∨ d = 2 := by omega
-  rcases this with rfl | rfl | rfl <;> decide
-
-example : (2 : Nat) ≤ 2 := by decide
+/-- Regression witness for finding F-HLLE-CT (`corpus/C08/f-hlle-ct.case`), independent of the generated file:
+    with the pre-fix recurrence `ct += ct + d - j` the columns written at `d = 3` are `[4,5,6,7,8,12]` — column 12 of a
+    10-column matrix — so they are NOT the range `[4, 10)`. -/
+theorem hlle_prefix_update_refuted :
+    ¬ ((writesGoWith (fun ct d j => ct + (ct + d - j)) 3
+        (Gen.HlleIndex.jHi 3 - Gen.HlleIndex.jLo).toNat Gen.HlleIndex.jLo Gen.HlleIndex.ctInit).map (·.1)).Perm
+      ((List.range 6).map fun c => ((4 + c : Nat) : Int)) := by
+  rw [prefix_update_writes_out_of_range]
+  decide
 
 /-- the model's write-list generator is the parametrised one at the generated `ct` update -/
 theorem hlle_writes_eq_with (d : Nat) : hlleWritesGo d = writesGoWith Gen.HlleIndex.ctUpdate d :=
@@ -230,6 +214,47 @@ theorem hlle_cols_bijective_fixed
   have := hlle_cols_bijective_of_update d
   rw [← hupd, ← hlleWritesGo_eq] at this
   exact this
+
+/-- **Column bookkeeping of `hessian_weight_matrix`, full statement**: for every target dimension the product
+    columns written are exactly `[1+d, 1+d+d(d+1)/2)`, each exactly once.
+    History: before the fix (`ct += ct + target_dimension - j`) this statement was FALSE for every `d ≥ 3`; the witness
+    `d = 3` wrote column 12 of a 10-column matrix (finding F-HLLE-CT, `corpus/C08/f-hlle-ct.case`,
+    `hlle_prefix_update_refuted` above).  The source now reads `ct += target_dimension - j`. -/
+theorem hlle_cols_bijective : ∀ d, ColsOK d :=
+  hlle_cols_bijective_fixed (fun _ _ _ => rfl)
+
+theorem hlleDp_eq (d : Nat) : hlleDp d = d * (d + 1) / 2 := LocallyLinear.hlleDp_eq d
+
+theorem hlleCols_eq (d : Nat) : hlleCols d = 1 + d + d * (d + 1) / 2 := LocallyLinear.hlleCols_eq d
+
+/-- **In-bounds obligation**: for EVERY `d` the index arithmetic reaches no `oob` / `clobber` / `uninit` state —
+    every written column lies in `[1+d, hlleCols d)`, both source columns lie in `[1, d]`, and every column of
+    `[1+d, hlleCols d)` is written. -/
+theorem hlle_index_ok : ∀ d, hlleIndexErr d = none :=
+  hlleIndexErr_none (fun _ _ _ => rfl)
+
+/-- the three component facts, spelled out -/
+theorem hlle_writes_in_range (d : Nat) : ∀ w ∈ hlleWrites d,
+    (1 + (d : Int) ≤ w.1 ∧ w.1 < (hlleCols d : Int)) ∧
+    (1 ≤ w.2.1 ∧ w.2.1 ≤ (d : Int) ∧ 1 ≤ w.2.2 ∧ w.2.2 ≤ (d : Int)) :=
+  fun w hw => ⟨hlleWrites_col_range (fun _ _ _ => rfl) d w hw, hlleWrites_src_range (fun _ _ _ => rfl) d w hw⟩
+
+theorem hlle_all_product_cols_written (d c : Nat) (h1 : 1 + d ≤ c) (h2 : c < hlleCols d) :
+    ∃ w ∈ hlleWrites d, w.1 = (c : Int) :=
+  hlleWrites_all_written (fun _ _ _ => rfl) d c h1 h2
+
+example : 1 + 3 ≤ 9 ∧ 9 < hlleCols 3 := by decide
+
+section HlleOk
+variable {K' : Type} [Add K'] [Sub K'] [Mul K'] [Div K'] [Zero K'] [One K'] [LT K'] [DecidableLT K']
+
+/-- `hessian_weight_matrix` has no undefined-behaviour state in the model, for every `d` and every input -/
+theorem hlleM_ok {N k d : Nat} (nb : Fin N → Fin k → Fin N) (sqrtO : K' → K') (thr : K') (U : Fin N → Mat k d K') :
+    ∃ M, hlleM nb sqrtO thr U = .ok M := by
+  simp only [hlleM, hlle_index_ok d]
+  exact ⟨_, rfl⟩
+
+end HlleOk
 
 /-! ## Spectral part (eigensolver contract `GenEigSystem` as hypothesis; `Proofs/SpectralLocal.lean`) -/
 
